@@ -17,6 +17,7 @@ import (
 
 	"github.com/hashicorp/go-multierror"
 	openfgav1 "github.com/openfga/api/proto/openfga/v1"
+	genparser "github.com/openfga/language/pkg/go/gen"
 	"github.com/openfga/language/pkg/go/transformer"
 	"google.golang.org/protobuf/encoding/protojson"
 	"google.golang.org/protobuf/proto"
@@ -581,6 +582,51 @@ func relationOrder(text, typeName string, want int) []string {
 
 // ---- token traces: what the lexer produced for the comment-stripped input (verif hook after ParseDSL) ----
 
+// lexer-record: for every document the tokens the real lexer produced for it (hook VerifTokens: type by its symbolic name, text,
+// line, column, channel) and whether a lexer error ("token recognition error") was among the reported errors - the trace that
+// spec/Lexer.tla validates.
+func lexerRecord(args []string) error {
+	fs := flag.NewFlagSet("lexer-record", flag.ExitOnError)
+	in := fs.String("in", "", "input ndjson {id, text}")
+	out := fs.String("out", "", "output ndjson {id, text, tokens, lexerr}")
+	fs.Parse(args)
+	w, err := newNDWriter(*out)
+	if err != nil {
+		return err
+	}
+	defer w.close()
+	names := genparser.NewOpenFGALexer(nil).SymbolicNames
+	return readNDJSON(*in, func(line []byte) error {
+		var inp dslParseIn
+		if err := json.Unmarshal(line, &inp); err != nil {
+			return err
+		}
+		toks := [][]any{}
+		transformer.VerifTokens = func(t int, x string, l, c, ch int) {
+			name := "EOF"
+			if t >= 0 && t < len(names) {
+				name = names[t]
+			}
+			toks = append(toks, []any{name, x, l, c, ch})
+		}
+		lexerr := false
+		panicked := ""
+		func() {
+			defer func() {
+				if r := recover(); r != nil {
+					panicked = fmt.Sprint(r)
+				}
+			}()
+			_, _, err := transformer.TransformModularDSLToProto(inp.Text)
+			if err != nil {
+				lexerr = strings.Contains(err.Error(), "token recognition error")
+			}
+		}()
+		transformer.VerifTokens = nil
+		return w.write(map[string]any{"id": inp.ID, "text": inp.Text, "tokens": toks, "lexerr": lexerr, "panic": panicked})
+	})
+}
+
 type tokRec struct {
 	Type int    `json:"t"`
 	Text string `json:"x"`
@@ -591,6 +637,8 @@ type tokRec struct {
 
 func init() {
 	commands["dsl-tokens"] = dslTokens
+	commands["lexer-record"] = lexerRecord
+	commands["lexer-record"] = lexerRecord
 }
 
 func dslTokens(args []string) error {
